@@ -186,7 +186,7 @@ func RunGrid(mk func() GridDriver, prop, tier string, seed int64, confCap int, k
 				// a grid case forks the base state several times; only a linear trace can be
 				// replayed on a chain, so the recorded calls are replayed one per fresh fork
 				// point: drivers mark fork points by recording nothing for throw-away calls.
-				msg := w.ReplayOnBlocks(x.Trace, nil)
+				msg := w.ReplayOnBlocks(x.Trace, x.Dumps)
 				w.Close()
 				if msg != "" {
 					hpanic("executors disagree on grid case %s: %s", cases[confIdx[k]].Name, msg)
